@@ -12,8 +12,8 @@ CHECK = dict(
          "storage (registry maps / index.json + blobs). Non-trivial = a delete executed while two tags shared a manifest, or a batch that really ran concurrently, or a tag "
          "listing that needed >=2 pages; distinct by the whole case (system, features, seed, op sequence).",
     jobs=[REPLAY,
-          rapid("prop", "TestVerifProp", 12000, 400000, sq=16, st=16, shrinktime="30s"),
-          rapid("conc", "TestVerifConc", 4000, 60000, sq=8, st=16, race=dict(quick=False, thorough=True), shrinktime="30s")],
+          rapid("prop", "TestVerifProp", 8000, 140000, sq=16, st=16, shrinktime="30s"),
+          rapid("conc", "TestVerifConc", 2400, 12000, sq=8, st=16, race=dict(quick=False, thorough=True), shrinktime="30s")],
     technique="model-based property testing (rapid): generated operation histories (as data) interpreted against the real client and an explicit reference model, "
               "compared after every step through the client API and against raw storage of an in-process model registry / raw OCI layout directories",
     level_text="Generated-history search: every step's result and the complete client-visible state (tag list over all pages, head and get of every pool tag and digest) "
